@@ -242,7 +242,7 @@ class Interp:
             if isinstance(n, ast.Name) and isinstance(n.ctx, ast.Load) and n.id in mutable_globals and n.id not in local_names:
                 bad.append(f'module-level mutable object `{n.id}`')
             if isinstance(n, ast.Call) and isinstance(n.func, ast.Name):
-                if n.func.id in ('open', 'input', 'timer'):
+                if n.func.id in ('open', 'input', 'timer', 'id'):
                     bad.append(n.func.id)
                 if n.func.id in module_funcs and n.func.id not in local_names and self.lookup_contract(n.func.id) is None:
                     bad.append(f'callee `{n.func.id}` is not under contract')
